@@ -102,7 +102,13 @@ _public_ int m_mod_set_batch_size(m_mod_t *mod, size_t len) {
 _public_ int m_mod_set_batch_timeout(m_mod_t *mod, uint64_t timeout_ns) {
     M_MOD_ASSERT(mod);
 
-    // src_deregister and src_register already consume a token
+    /*
+     * src_deregister and src_register already consume a token each:
+     * refuse right now, without any effect, when the tokenbucket cannot pay for both
+     * (else the old timer would stay, or the new settings would be stored without their timer).
+     */
+    const uint64_t needed_tokens = (mod->batch.timer.ns != 0) + (timeout_ns != 0);
+    M_RET_ASSERT(mod->tb.tokens >= needed_tokens, -EAGAIN);
 
     /* If it was already set, remove old timer */
     if (mod->batch.timer.ns != 0) {
